@@ -148,6 +148,8 @@ impl Executor {
 
     /// Execute an instruction, modifying state and program counter.
     pub fn step(&mut self) -> Option<()> {
+        #[cfg(melstf_verif)]
+        crate::opcode::verif::step_bump();
         let mut inner = || {
             let op = self.instrs.get(self.pc)?.clone();
             // eprintln!("OPS: {:?}", self.instrs);
